@@ -70,7 +70,7 @@ def enumerate_sites(F, roots):
                                     v = const_val(a)
                                     if isinstance(v, str):
                                         msg = v
-                    out.append((b, bi, 'panic', '%s "%s"' % (c.split('::')[-1], msg[:60]), None))
+                    out.append((b, bi, 'panic', '%s "%s"' % (c.split('::')[-1], msg[:60]), implied_by_validation(fl, b, bi)))
                 elif c.endswith(UNWRAPS) and (c.startswith('std::option::Option') or c.startswith('std::result::Result')):
                     out.append((b, bi, 'unwrap', c.split('::')[-1] + ' of ' + root_name(fl, t['args'][0]), None))
                 elif c in INDEXERS:
@@ -79,6 +79,35 @@ def enumerate_sites(F, roots):
                 elif c in PANICKY_STD:
                     out.append((b, bi, 'std-panics', '%s (%s) on %s' % (c.split('::')[-1], PANICKY_STD[c], root_name(fl, t['args'][0])), None))
     return out, graph
+
+
+def implied_by_validation(fl, b, bi):
+    """A `debug_assert_eq!(written, delta.source_size)` is discharged when the block is reachable only through the equal
+    edge of an earlier comparison of delta.expected_output_size() with delta.source_size (the sum of the op lengths is
+    what gets written)."""
+    cfg = fl.cfg
+    for cb in cfg.reachable():
+        for st in b.blocks[cb]['stmts']:
+            rv = st['rv']
+            if rv['k'] == 'bin' and rv['op'] in ('Eq', 'Ne'):
+                oa, ob = fl.origins(rv['ops'][0]), fl.origins(rv['ops'][1])
+                exp = lambda os_: bool(os_) and all(o.kind == 'call' and o.key == 'delta::Delta::expected_output_size' for o in os_)
+                ssz = lambda os_: bool(os_) and all(o.kind in ('param', 'upvar') and o.path[-1:] == ('source_size',) for o in os_)
+                if (exp(oa) and ssz(ob)) or (exp(ob) and ssz(oa)):
+                    oc = fl.outcomes(None, st['dst']['l'])
+                    e = oc.get('true' if rv['op'] == 'Eq' else 'false', set())
+                    if e and cfg.edges_guard(e, bi):
+                        # the failing assertion itself compares against source_size
+                        for ab in cfg.reachable():
+                            for st2 in b.blocks[ab]['stmts']:
+                                rv2 = st2['rv']
+                                if rv2['k'] == 'bin' and rv2['op'] == 'Eq' and ab != cb and \
+                                   any(o.path[-1:] == ('source_size',) for op_ in rv2['ops'] for o in fl.origins(op_)):
+                                    oc2 = fl.outcomes(None, st2['dst']['l'])
+                                    fe = oc2.get('false', set())
+                                    if fe and cfg.edges_guard(fe, bi):
+                                        return 'implied: reachable only after expected_output_size() == source_size was established'
+    return None
 
 
 def describe_assert(fl, b, bi, t):
